@@ -9,7 +9,7 @@ for s in $SEEDS; do
   for c in C01 C02 C03 C04 C05 C06 C07 C08 C09 C10 C11 C12 C13 C14 C15 C16 C17 C18 C19 C20; do
     echo "$s $c"
   done
-done | xargs -P 5 -L 1 sh -c 'VERIF_OUT='$OUT'/$0 VERIF_SEED=$0 PYTHONHASHSEED='$HS' /venv/bin/python run_check.py $1 --tier quick > '$OUT'/$1.$0.log 2>&1; echo "$? $1 seed=$0" >> '$OUT'/rc.txt'
+done | xargs -P 12 -L 1 sh -c 'VERIF_OUT='$OUT'/$0 VERIF_SEED=$0 PYTHONHASHSEED='$HS' /venv/bin/python run_check.py $1 --tier quick > '$OUT'/$1.$0.log 2>&1; echo "$? $1 seed=$0" >> '$OUT'/rc.txt'
 grep -v "^0 " $OUT/rc.txt | sort
 echo "runs: $(wc -l < $OUT/rc.txt), non-zero: $(grep -vc '^0 ' $OUT/rc.txt)"
 for f in $(grep -v "^0 " $OUT/rc.txt | awk '{print $2"."substr($3,6)}'); do echo "== $f"; grep -E "^VIOLATION|^  bucket|^HARNESS|Error" $OUT/$f.log | head -6; done
